@@ -25,8 +25,12 @@ props! {
     "C02" => c02,
     "C03" => c03,
     "C04" => c04,
+    "C05" => c05,
     "C06" => c06,
     "C11" => c11,
     "C13" => c13,
     "C14" => c14,
+    "C15" => c15,
+    "C16" => c16,
+    "C17" => c17,
 }
